@@ -58,9 +58,16 @@ def plans(run):
             for mode in ('full', 'custom', 'result'):
                 variants.append({'script': script, 'overrides': None, 'console': mode})
             variants.append({'script': script, 'overrides': ['before', 'iter', 'stop'], 'console': 'full'})
+            variants.append({'script': script, 'overrides': ['before', 'iter', 'stop'], 'console': 'full', 'console_first': True})      # console attached BEFORE the recorder
             cfg = dict(N=1, r=2.5, seed=sd, kpre=kpre, nsym=3, iters_limit=L, eps=1e-9, variants=variants, tags=['listeners'])
             out.append((cfg, 'f#%d: %d concrete + 2 arbitrary values, batches %s then Solve: %d override subsets + console modes vs no listener'
                         % (sd, kpre, batches, len(seen))))
+    # the batches use up the whole budget: Solve has nothing left to do but must still notify; and Solve twice
+    script = [('iter', 2), ('iter', 1), ('solve',), ('solve',)]
+    variants = [{'script': script, 'overrides': None}, {'script': script, 'overrides': ['stop']}, {'script': script, 'overrides': list(CALLBACKS)},
+                {'script': script, 'overrides': None, 'console': 'result'}, {'script': script, 'overrides': ['iter', 'stop'], 'console': 'custom', 'console_first': True}]
+    out.append((dict(N=1, r=2.5, seed=seeds[0], kpre=1, nsym=3, iters_limit=3, eps=1e-9, variants=variants, tags=['solve-with-nothing-left']),
+                'batches exhaust itersLimit=3, then Solve twice: listeners vs none'))
     # all 16 subsets on one fresh short run
     script = [('iter', 1), ('iter', 1), ('solve',)]
     variants = [{'script': script, 'overrides': None}] + [{'script': script, 'overrides': ov} for ov in subs]
@@ -118,7 +125,7 @@ def main():
     agp.confirm(run, WANT)
     run.finish('a listener overriding any subset of callbacks is notified completely and in order; recording and console listeners change neither '
                'the trials nor the result; the console report shows the solution\'s own numbers',
-               vacuity=['compose', 'symbolic-values', 'listeners', 'all-16-subsets', 'two-dimensional', 'with-refinement'])
+               vacuity=['compose', 'symbolic-values', 'listeners', 'all-16-subsets', 'two-dimensional', 'with-refinement', 'solve-with-nothing-left'])
 
 
 if __name__ == '__main__':
